@@ -54,6 +54,10 @@ func InitMetricsMeta() error {
 func AddMetricsMetaEntry(entry *structs.MetricsMeta) error {
 	mMetaLock.Lock()
 	defer mMetaLock.Unlock()
+	if localMetricsMeta == "" {
+		// WAL recovery at startup can get here before InitMetricsMeta() has run.
+		localMetricsMeta = GetLocalMetricsMetaFName()
+	}
 	fd, err := os.OpenFile(localMetricsMeta, os.O_APPEND|os.O_WRONLY|os.O_CREATE, 0644)
 	if err != nil {
 		log.Errorf("AddMetricsMetaEntry: failed to open filename=%v: err=%v", localMetricsMeta, err)
